@@ -10,7 +10,12 @@ PROP = {'rule': 'rapid-generated cases. takeCPUs: (topology sockets1-2 x numa1-2
          'again) and reusableDryRun (uncommitted Allocate that may reuse the CPUs / NUMA amounts of a live pod acting as matched '
          'reservation: preferredCPUs + reusableResources, mostly with NUMA hint and REQUIRED FullPCPUs/SpreadByPCPUs); non-trivial = >=3 '
          'operations with a recorded pod released while the topology was missing, or a required-FullPCPUs whole-core request with NUMA '
-         'hint over reusable CPUs that are not core-aligned. '
+         'hint over reusable CPUs that are not core-aligned, or a preemption dry run (victims = live pods, restored CPUs / NUMA amounts '
+         'read back through GetAllocatedCPUSet / GetAllocatedNUMAResource as preempt.go does, request at/around what the hinted nodes '
+         'have free for this pod) with a victim whose NUMA node list is not {0..k}. '
+         'concurrentFirstTouch: one generated script set (2-8 goroutines x 1-3 ops of record / record+release / release-unknown / read, '
+         'pairwise disjoint allocations) replayed behind a barrier on 150 (thorough 400) fresh nodes of a fresh resourceManager, oracle at '
+         'quiescence; non-trivial = >=2 goroutines whose first operation records a pod. '
          'distinct = FNV-64 fingerprint of the full case.',
  'assumptions': ['topologies are regular (every core has the same number of threads), as NewTopologyOptions builds them from the NRT '
                  'report',
@@ -21,6 +26,9 @@ PROP = {'rule': 'rapid-generated cases. takeCPUs: (topology sockets1-2 x numa1-2
                  'the model only once it was recorded; a recorded pod stays live across an NRT delete/re-create and leaves the model when '
                  'Release is called, whether or not a topology is known at that moment (pod delete events / Unreserve are not guarded)',
                  'the topology reported again after a delete is the same one (same MaxRefCount, reserved CPUs, NUMA resources)',
+                 'concurrent unit: pods are recorded with Update() from pre-built disjoint allocations (what the pod informer does from the '
+                 'pod annotations after a restart); every pod is touched by one goroutine only, so the state at quiescence is schedule '
+                 'independent; detection of a lost update is probabilistic, the verdict on correct code is not; run without -race',
                  'reusable CPUs of a reservation are modelled as a subset of the CPUs of one live pod, handed back once (preferredCPUs), with '
                  'one cpu of NUMA amount per handed-back CPU on the NUMA nodes that pod was charged on'],
  'units': [{'name': 'numa',
@@ -30,7 +38,7 @@ PROP = {'rule': 'rapid-generated cases. takeCPUs: (topology sockets1-2 x numa1-2
                       {'run': 'TestVerifC06NUMASplit', 'quick': 20000, 'thorough': 200000},
                       {'run': 'TestVerifC06ManagerHistory', 'quick': 3000, 'thorough': 25000, 'steps': 25},
                       {'run': 'TestVerifC06ManagerHistoryExt', 'quick': 3000, 'thorough': 25000, 'steps': 25},
-                      {'run': 'TestVerifC06ConcurrentFirstTouch', 'quick': 400, 'thorough': 1500},
+                      {'run': 'TestVerifC06ConcurrentFirstTouch', 'quick': 300, 'thorough': 1500},
                       {'run': 'FuzzVerifC06NUMASplit', 'fuzz': True, 'rapid': False, 'thorough_only': True, 'fuzztime': '40s'},
                       {'run': 'FuzzVerifC06TakeCPUs', 'fuzz': True, 'rapid': False, 'thorough_only': True, 'fuzztime': '40s'}]}],
  'manifest': {'technique': 'property-based testing (rapid): generated topologies/free sets/hints with validity + completeness oracle, and '
@@ -41,6 +49,9 @@ PROP = {'rule': 'rapid-generated cases. takeCPUs: (topology sockets1-2 x numa1-2
                       'subset hint; allocate/update/release histories are compared after every step with a reference model of per-CPU '
                       'holders and per-NUMA sums, including histories in which the NodeResourceTopology disappears and comes back '
                       'while pods are released, and uncommitted allocations over reusable (reservation) CPUs whose required bind policy '
-                      'is re-verified independently. Exploration, not proof: absence of violations over the sampled cases.',
+                      'is re-verified independently, preemption dry runs whose restored amounts come from the manager\'s own getters and '
+                      'are judged against the model (nothing beyond what is free for this pod per NUMA node; divisible requests that fit '
+                      'succeed), and a concurrent unit in which several goroutines touch fresh nodes for the first time together and the '
+                      'ledger is compared with the sum of the live pods after they were joined. Exploration, not proof: absence of violations over the sampled cases.',
               'note': "regular topologies; allocations enter the ledger only via Allocate+Update; rapid's PRNG and shrinker; Go map "
                       'iteration inside koordinator is not controlled'}}
